@@ -18,7 +18,7 @@ EXPLANATION = (
     "value) pair per entry. (R4) serialisation coverage: for every Component / Condition type and every crate-local "
     "type nested in their fields, the Serialize::serialize body (derived or hand-written) reads every field that is "
     "not a marker (PhantomData, PhantomId, SerializablePhantom, fn pointer); (R5) to_ron serialises self.heuristic() "
-    "with struct_names(true), and par_experiment writes it before the parallel runs start. NOT decided: the JSON / "
+    "with struct_names(true), and par_experiment writes it before the parallel runs start. (R7) State::holding puts the held LogConfig back where it came from; (R8) Logger::init initialises every trigger once, in rule order, stopping at the first failure; (R9) to_json / to_cbor serialise the compressed form of the whole log into a writer on the file at the caller's path, Ok iff both steps succeed. NOT decided: the JSON / "
     "CBOR / RON codecs themselves (third-party), equality of logged values with the state at that moment beyond the "
     "dataflow shown.")
 ASSUMPTIONS = ["serde_json, ciborium and ron encode what Serialize emits", "type_name::<T>() is injective on the logged state types"]
